@@ -91,7 +91,9 @@ func genColValue(t *rapid.T, u int) val.V {
 	case 4:
 		return val.Real(rapid.SampledFrom([]float64{0, 1, 1.5, -2.5, 3.0, 42.0, 1e10, 9007199254740992, 9007199254740994, 1e300, 0.1}).Draw(t, "cvr"))
 	case 5, 6, 7:
-		return val.Text(rapid.SampledFrom([]string{"", "a", "A", "a ", "a  ", "b", "B", "ab", "abc", "é", "É", "1", "12", "1.5", "1e3", " 7", "0x10", "a\x00b", "lit", "x", "7 ", "-3"}).Draw(t, "cvt"))
+		return val.Text(rapid.SampledFrom([]string{"", "a", "A", "a ", "a  ", "b", "B", "ab", "abc", "é", "É", "1", "12", "1.5", "1e3", " 7", "0x10", "a\x00b", "lit", "x", "7 ", "-3",
+			// text of every UTF-8 length class (collations compare bytes; NOCASE folds A-Z only)
+			"€", "日本", "ж", "Ж", "ω", "𝔘", "é€", "É€", "z€", "ÿ", "ß"}).Draw(t, "cvt"))
 	case 8:
 		return val.Null()
 	default:
